@@ -691,7 +691,7 @@ def check(rep: Report, tier: str, seed: int) -> None:
         lap("world_level")
     settle(rep, cx)
     lap("driver")
-    if rep.broken and not rep.failing:
+    if rep.broken and not rep.unknown_failing():
         search(rep, seed, tier)
 
 
